@@ -129,7 +129,15 @@ def upload_scenario(ctx, rng, point):
         H.w.write_file(os.path.join(H.w.src, H.w.items[0], "keeper"), b"k" * 300)
         H.run(nedits=1)
         cloud.write_upload_config(sb, H.w.st, "dropbox")
-        init = {"dropbox": {cloud.CLOUD_ROOT: {"type": "folder"}}}
+        # a second backup with its own upload section in the same configuration file: the lock must cover the whole file, not one backup
+        import shutil
+        st2 = sb.path("st-second")
+        shutil.copytree(H.w.st, st2, symlinks=True)
+        cfg = open(sb.cfg).read()
+        second = cfg.split("backups:\n", 1)[1].replace("name: t", "name: u").replace("path: %s" % H.w.st, "path: %s" % st2).replace("path: %s" % cloud.CLOUD_ROOT, "path: /Backups/u")
+        with open(sb.cfg, "w") as f:
+            f.write(cfg + second)
+        init = {"dropbox": {cloud.CLOUD_ROOT: {"type": "folder"}, "/Backups/u": {"type": "folder"}}}
         route = "dropbox.list_folder" if point == "upload-listing" else "dropbox.upload_session.append"
         emu = cloud.Emu(sb.path("emu"), init=init, script=[{"when": {"route": route, "nth": 1}, "fault": "delay", "seconds": 3.0}])
         try:
@@ -176,7 +184,7 @@ def upload_scenario(ctx, rng, point):
             ctx.violation("exclusion", problem, {"case": desc, "second_output": out2[-600:]})
             return
         finals = [p for p in files if p.endswith(".tar.gpg") and not os.path.basename(p).startswith(".")]
-        if p1.returncode != 0 or slevel.errors_of(out1) or len(finals) != 1:
+        if p1.returncode != 0 or slevel.errors_of(out1) or len(finals) != 2:
             ctx.violation("schedule", "correspondence lock-schedule no longer checks: the held first upload ends with exit %d, %s, %d final objects"
                           % (p1.returncode, slevel.errors_of(out1)[:2], len(finals)), {"case": desc, "first_output": out1[-600:]}, failing_input=False)
         ctx.traces += 1
